@@ -125,6 +125,7 @@ func cmdCheck(args []string) int {
 	par := fs.Int("j", 6, "obligations in parallel")
 	verbose := fs.Bool("v", false, "verbose")
 	noEvidence := fs.Bool("no-evidence", false, "do not write evidence")
+	audit := fs.Bool("audit", false, "consistency audit: ask cvc5 (enumerative instantiation) and z3 whether the ASSUMPTIONS of each obligation context are contradictory, instead of solving the obligations")
 	fs.Parse(args)
 	verifDir = *verif
 	start := time.Now()
@@ -443,6 +444,9 @@ func cmdCheck(args []string) int {
 	if len(allObls) == 0 && len(stale) == 0 {
 		return undecided("no obligations generated for " + *prop + " (vacuous check)")
 	}
+	if *audit {
+		return auditContexts(allObls, workdir, *par)
+	}
 	// solve
 	results := make([]*Result, len(allObls))
 	var retries int32
@@ -724,6 +728,7 @@ func cmdCheck(args []string) int {
 		assumptions := []string{
 			"integers: SMT Int with exact machine wraparound per Go type; contract arithmetic is mathematical",
 			"partial correctness: termination is not proved except where a decreases obligation is listed",
+			"no string or slice is longer than 2^56 elements (the length of a concatenation or conversion that would be longer is clamped there)",
 			"sync.Mutex critical sections are atomic (no interleaving is modelled)",
 			"Go memory safety (no unsafe in functions under contract)",
 			"calls without a contract are over-approximated: results unconstrained, reachable heap havocked",
@@ -1027,4 +1032,86 @@ func lemmaObligation(c *Ctx, lm *Lemma) (*Obl, error) {
 	g.axiomsCache = g.relevantAxioms()
 	o := &Obl{Name: "lemma/" + lm.Name, Kind: "lemma", Props: lm.Props, Goal: t, Text: lm.Text, g: g, Seq: 1 << 30}
 	return o, nil
+}
+
+// auditContexts: the assumptions an obligation is proved under (axioms, assumed contracts, path
+// facts) must themselves be satisfiable, otherwise everything is provable. The solvers race on
+// every obligation with pattern-guided instantiation, which seldom stumbles over a contradiction
+// between two axioms; here each distinct context (function, block, latest obligation) is handed,
+// WITHOUT a goal, to cvc5 with enumerative instantiation and to z3. `unsat` = contradictory context.
+func auditContexts(obls []*Obl, workdir string, par int) int {
+	type key struct {
+		f string
+		b *ssa.BasicBlock
+	}
+	last := map[key]*Obl{}
+	for _, o := range obls {
+		if o.Custom != "" || o.g == nil || o.Cover {
+			continue
+		}
+		k := key{o.Func, o.Blk}
+		if p := last[k]; p == nil || o.Seq > p.Seq {
+			last[k] = o
+		}
+	}
+	var list []*Obl
+	for _, o := range last {
+		list = append(list, o)
+	}
+	sort.Slice(list, func(i, j int) bool { return list[i].Name < list[j].Name })
+	os.MkdirAll(workdir, 0o755)
+	bad := int32(0)
+	var mu sync.Mutex
+	var wg sync.WaitGroup
+	sem := make(chan struct{}, par)
+	for i, o := range list {
+		wg.Add(1)
+		go func(i int, o *Obl) {
+			defer wg.Done()
+			sem <- struct{}{}
+			defer func() { <-sem }()
+			q := strings.Replace(o.query(false), "(get-model)\n", "", 1)
+			// include the obligation's own goal as an assumption too: later obligations assume it
+			file := filepath.Join(workdir, fmtf("audit_%d.smt2", i))
+			os.WriteFile(file, []byte(q), 0o644)
+			for _, argv := range [][]string{{"cvc5", "--enum-inst", "--tlimit=8000", file}, {"z3-new", "-T:5", file}} {
+				out, _ := exec.Command(argv[0], argv[1:]...).CombinedOutput()
+				first := strings.TrimSpace(strings.SplitN(string(out), "\n", 2)[0])
+				if first == "unsat" {
+					// dead code (a block no execution reaches) is contradictory on ground facts alone:
+					// that is a fact about the code, not about the axioms
+					var sb strings.Builder
+					for _, ln := range strings.Split(q, "\n") {
+						if strings.HasPrefix(ln, "(assert ") && (strings.Contains(ln, "(forall ") || strings.Contains(ln, "(exists ")) {
+							continue
+						}
+						sb.WriteString(ln + "\n")
+					}
+					gf := strings.TrimSuffix(file, ".smt2") + ".ground.smt2"
+					os.WriteFile(gf, []byte(sb.String()), 0o644)
+					gout, _ := exec.Command("z3-new", "-T:10", gf).CombinedOutput()
+					os.Remove(gf)
+					if strings.TrimSpace(strings.SplitN(string(gout), "\n", 2)[0]) == "unsat" {
+						mu.Lock()
+						fmt.Printf("unreachable block (ground facts alone are contradictory): context of %s\n", o.Name)
+						mu.Unlock()
+						os.Remove(file)
+						return
+					}
+					mu.Lock()
+					fmt.Printf("INCONSISTENT context of %s (%s): %s\n", o.Name, argv[0], file)
+					mu.Unlock()
+					atomic.AddInt32(&bad, 1)
+					return
+				}
+			}
+			os.Remove(file)
+		}(i, o)
+	}
+	wg.Wait()
+	fmt.Printf("audit: %d contexts, %d contradictory\n", len(list), bad)
+	if bad > 0 {
+		return 1
+	}
+	return 0
 }
